@@ -110,6 +110,9 @@ func (c *chk) randState() *fzf.VerifAnsiState {
 
 func (c *chk) bytesCase() {
 	n := 1 + c.rng.Intn(10)
+	if c.rng.Intn(40) == 0 {
+		n = 30 + c.rng.Intn(300)
+	}
 	var sb strings.Builder
 	sig := make([]byte, 0, n)
 	for i := 0; i < n; i++ {
@@ -347,6 +350,9 @@ func (c *chk) grammarCase() {
 	var in strings.Builder
 	var want []tstate // per output rune
 	n := 1 + c.rng.Intn(8)
+	if c.rng.Intn(40) == 0 {
+		n = 30 + c.rng.Intn(300) // long lines: many spans (growth of the span list)
+	}
 	codes := map[int]bool{}
 	endsWithSeq := false
 	for i := 0; i < n; i++ {
